@@ -187,10 +187,20 @@ def getPermissions (st : St) (user : Nat) : St :=
   | (some _, ac') => { st with ac := ac' }
   | (none, _) => if user = 1 then { st with ac := st.ac.add st.maxSize st.now user () } else st
 
+/-- router/auth.go `Authenticate`, after a successful TokenUnwrap (fixes/C21-2.patch): the token is
+written into TokenCache FIRST and the revocation list is consulted once more; a revoked token is
+taken out again and denied. (Blacklist purges TokenCache while holding the revocation list's lock,
+so a lookup made after the Add either sees the revocation or precedes that purge. In a sequential
+history the second lookup repeats the first one's answer.) -/
+def writeBack (st2 : St) (p : Pres) (tok : Tok) : Verdict × St :=
+  match isBlacklisted { st2 with tc := st2.tc.add st2.maxSize st2.now p tok } tok.id with
+  | (true, st4) => (.denied, { st4 with tc := st4.tc.delete p })
+  | (false, st4) => (.accepted, getPermissions st4 tok.user)
+
 /-- router/auth.go `Authenticate`, bearer branch for a native token (no remote authority):
 TokenCache hit → authenticated unless the cached token has expired (then evicted and fully
 validated); miss → auth.TokenUnwrap = tokens.Unwrap, accepted only with a non-empty Name,
-and then cached. -/
+and then cached (`writeBack`). -/
 def routerAuth (dec : Pres → Option Tok) (st : St) (p : Pres) : Verdict × St :=
   let hit : Option Tok × St :=
     match st.tc.find st.now p with
@@ -203,8 +213,7 @@ def routerAuth (dec : Pres → Option Tok) (st : St) (p : Pres) : Verdict × St 
   | (none, st1) =>
     match unwrap dec st1 p with
     | (.accepted, some tok, st2) =>
-      if tok.user ≠ 0 then
-        (.accepted, getPermissions { st2 with tc := st2.tc.add st2.maxSize st2.now p tok } tok.user)
+      if tok.user ≠ 0 then writeBack st2 p tok
       else (.denied, st2)
     | (_, _, st2) => (.denied, st2)
 
